@@ -12,6 +12,17 @@ floating point by the caller; `none`: `max_imbalance = None`).
 
 namespace Coupe.Fm
 
+/-- 2 x 4 grid of the doc example of `FiducciaMattheyses`, unit weights. -/
+def gEx : Graph :=
+  [[(1,1),(4,1)], [(0,1),(2,1),(5,1)], [(1,1),(3,1),(6,1)], [(2,1),(7,1)],
+   [(0,1),(5,1)], [(1,1),(4,1),(6,1)], [(2,1),(5,1),(7,1)], [(3,1),(6,1)]]
+
+/-- A weighted 4-cycle (no ties with the vertex weights `[5,7,11,13]`). -/
+def g4 : Graph := [[(1,3),(2,1)], [(0,3),(3,2)], [(0,1),(3,4)], [(1,2),(2,4)]]
+
+theorem valid_gEx : Valid gEx := ⟨by decide, by decide, by decide, by decide, by decide⟩
+theorem valid_g4 : Valid g4 := ⟨by decide, by decide, by decide, by decide, by decide⟩
+
 /-- `fm_ids`: the id array keeps its length and stays two-way. -/
 theorem fm_ids (ch : Nat → Nat → Nat) (prm : Params) (capOpt : Option Int) (g : Graph)
     (ws : List Int) (p : List Nat) (r : Result)
@@ -61,7 +72,7 @@ theorem fm_cap (ch : Nat → Nat → Nat) (prm : Params) (capOpt : Option Int) (
     · rw [← O.pw0]; exact c0
     · rw [← O.pw1]; exact c1
 
-/-- `fm_cut_le` for the build with debug assertions (the one the harness runs): the tracked cut is
+/-- `fm_cut_le_dbg`: for the build with debug assertions (the one the harness runs): the tracked cut is
 checked against `edge_cut` after every move, so a run that returns has tracked the true cut, and
 the best-prefix rewind returns a partition whose cut is the smallest tracked value, never above
 the input's.  No hypothesis on the graph is needed. -/
@@ -76,9 +87,88 @@ theorem fm_cut_le_dbg (ch : Nat → Nat → Nat) (prm : Params) (capOpt : Option
       (fun _ o _ => ⟨stepHyp_trivial .., trivial⟩) h hne
     rw [← O.cut hd]; exact O.cutle
 
+/-- `gain_inv`: on a valid graph (symmetric, loop-free CSR matrix, weights ≥ 0) every state
+reached by the move loop of a pass holds in its gain table the true gain (computed from scratch:
+`gainOf`) of every free vertex.  Symmetry is what makes the `± 2·w` update of line 196-200 exact. -/
+theorem gain_inv (ch : Nat → Nat) (prm : Params) (g : Graph) (ws : List Int) (cap : Int)
+    (o : Outer) (fuel : Nat) (st : PassSt) (V : Valid g)
+    (hg : o.part.length = g.length) (hws : o.part.length = ws.length)
+    (hle : ∀ i ∈ o.part, i ≤ 1) (hp0 : o.pw0 = load ws o.part 0) (hp1 : o.pw1 = load ws o.part 1)
+    (hb : o.best = edgeCut g o.part)
+    (h : movesLoop ch prm g ws cap (maxPossibleGain g) fuel 0 (initPass g o) = .ok st) :
+    ∀ u x, st.gains.getD u none = some x → x = gainOf g st.part u :=
+  (movesLoop_reach V fuel hg hws hle hp0 hp1 hb h).1
+
+/-- `cut_track`: in the same states `current_edge_cut` is the true edge cut – the
+`debug_assert_eq!` of line 185 holds in every run, with or without debug assertions. -/
+theorem cut_track (ch : Nat → Nat) (prm : Params) (g : Graph) (ws : List Int) (cap : Int)
+    (o : Outer) (fuel : Nat) (st : PassSt) (V : Valid g)
+    (hg : o.part.length = g.length) (hws : o.part.length = ws.length)
+    (hle : ∀ i ∈ o.part, i ≤ 1) (hp0 : o.pw0 = load ws o.part 0) (hp1 : o.pw1 = load ws o.part 1)
+    (hb : o.best = edgeCut g o.part)
+    (h : movesLoop ch prm g ws cap (maxPossibleGain g) fuel 0 (initPass g o) = .ok st) :
+    st.cur = edgeCut g st.part :=
+  (movesLoop_reach V fuel hg hws hle hp0 hp1 hb h).2
+
+/-- `fm_cut_le`: on a valid graph the cut of the output is at most the cut of the input, in
+every build (`prm.dbg` arbitrary), for every choice function, parameter setting and cap. -/
+theorem fm_cut_le (ch : Nat → Nat → Nat) (prm : Params) (capOpt : Option Int) (g : Graph)
+    (ws : List Int) (p : List Nat) (r : Result) (V : Valid g)
+    (h : run ch prm capOpt g ws p = .ok r) :
+    edgeCut g r.part ≤ edgeCut g p := by
+  by_cases hne : p = []
+  · subst hne; rw [run_empty h]; exact Int.le_refl _
+  · have hg : p.length = g.length := by
+      apply Classical.byContradiction
+      intro hc
+      unfold run at h
+      split at h
+      · simp at h
+      · simp [hc] at h
+    obtain ⟨i, o, O, -, rfl⟩ := run_inv (CT := True) (X := GInv g)
+      (fun _ o O => ⟨stepHyp_valid V (O.plen.trans hg), initPass_ginv g o⟩) h hne
+    rw [← O.cut trivial]; exact O.cutle
+
+/-- `fm_total`: on a valid graph the run never aborts, whatever the lengths, ids, weights,
+parameters, cap and choices: no bucket index is out of bounds (`gain + max_possible_gain`
+stays inside `0 .. 2*mpg`), the bucket array has a non-negative size, the debug assertion on the
+tracked cut never fires, `hist.len() - rewind_to` does not underflow, and both loops terminate
+within the model's fuel (at most `n` moves per pass; every pass but the last lowers the cut). -/
+theorem fm_total (ch : Nat → Nat → Nat) (prm : Params) (capOpt : Option Int) (g : Graph)
+    (ws : List Int) (p : List Nat) (V : Valid g) (a : Abort) :
+    run ch prm capOpt g ws p ≠ .abort a :=
+  run_total V a
+
+/-- Non-vacuity: concrete non-trivial runs on valid graphs (hypotheses of the theorems above);
+the first is the doc example of `FiducciaMattheyses` (cap 5 = 1.25 x 4), which meets ties. -/
+example : run (fun _ _ => 0) ⟨none, none, 0, true⟩ (some 5) gEx [1,1,1,1,1,1,1,1]
+    [0,0,1,1,0,1,0,1] = .ok ⟨[0,0,1,1,0,0,1,1], [2,0], [0,0], [[2,1],[]]⟩ := by decide +kernel
+example : run (fun _ _ => 0) ⟨none, none, 1, true⟩ (some 30) g4 [5,7,11,13] [0,1,0,1] =
+    .ok ⟨[1,1,0,0], [3,1], [1,1], [[1,1,1],[1]]⟩ := by decide +kernel
+example : edgeCut g4 [0,1,0,1] = 7 ∧ edgeCut g4 [1,1,0,0] = 3 := by decide +kernel
+
+/-- The hypotheses are needed: on an asymmetric matrix the debug assertion fires … -/
+theorem fm_asymmetric_aborts :
+    run (fun _ _ => 0) ⟨none, none, 1, true⟩ (some 30) [[(1,3)], [(0,1)]] [5,7] [0,1] =
+      .abort .assertCut := by decide +kernel
+
+/-- … and with a negative edge weight a bucket index is out of bounds. -/
+theorem fm_negative_weight_aborts :
+    run (fun _ _ => 0) ⟨none, none, 1, true⟩ (some 30)
+      [[(1,-3),(2,4)], [(0,-3)], [(0,4)]] [5,7,1] [0,1,0] = .abort .bucketIndex := by
+  decide +kernel
+
 end Coupe.Fm
 
+#print axioms Coupe.Fm.valid_gEx
+#print axioms Coupe.Fm.valid_g4
 #print axioms Coupe.Fm.fm_ids
 #print axioms Coupe.Fm.fm_meta
 #print axioms Coupe.Fm.fm_cap
 #print axioms Coupe.Fm.fm_cut_le_dbg
+#print axioms Coupe.Fm.gain_inv
+#print axioms Coupe.Fm.cut_track
+#print axioms Coupe.Fm.fm_cut_le
+#print axioms Coupe.Fm.fm_total
+#print axioms Coupe.Fm.fm_asymmetric_aborts
+#print axioms Coupe.Fm.fm_negative_weight_aborts
